@@ -261,6 +261,22 @@ class Source:
             raise Undecided("ambiguous anchor: fn %s has %d definitions in %s" % (path, len(cands), self.path))
         return cands[0]
 
+    def derives(self, kind: str, name: str):
+        """names listed in #[derive(..)] attributes directly above the type definition."""
+        m = self.m
+        depths = brace_depths(m)
+        for mm in re.finditer(r"\b%s\s+%s\b" % (kind, re.escape(name)), m):
+            if depths[mm.start()] != 0:
+                continue
+            k = mm.start()
+            pre = re.search(r"((?:\s*(?:#\[[^\]]*\]|pub(?:\s*\([^)]*\))?))*)\s*$", m[:k])
+            attrs = pre.group(1) if pre else ""
+            out = []
+            for d in re.finditer(r"#\[derive\(([^)]*)\)\]", attrs):
+                out += [x.strip().split("::")[-1] for x in d.group(1).split(",") if x.strip()]
+            return out
+        raise Undecided("anchor lost: %s %s not found in %s" % (kind, name, self.path))
+
     def find_type(self, kind: str, name: str, any_depth=False):
         """kind in struct|enum. returns dict(text, fields=[names] or variants=[names])."""
         m = self.m
